@@ -80,7 +80,7 @@ def attempt(job, overrides):
         if o.get('cls') in ('BaseDocument', 'BaseSection', 'BaseProperty'):
             for fld in ('_id', '_name'):
                 idv = (o.get('fields', {}).get(fld) or {}).get('str')
-                if idv is not None and len(idv) == 36 and idv not in strmap:
+                if idv is not None and len(idv) == 36 and idv not in strmap and not _is_canon(idv):
                     strmap[idv] = str(uuid.uuid5(uuid.NAMESPACE_OID, idv))
     # create objects
     for r, o in sorted(objs.items()):
@@ -242,6 +242,7 @@ def attempt(job, overrides):
                 g.update({k: v for k, v in sys.modules[m].__dict__.items() if not k.startswith('__')})
             g.update(dsl.NATIVE_ENV)
             g.update(NATIVE_HEAP)
+            evaluated = []
             for k, src in enumerate(c.ensures):
                 if 'old(' in src:
                     continue
@@ -251,8 +252,11 @@ def attempt(job, overrides):
                     ok = bool(eval(compile(src, '<contract>', 'eval'), g2))
                 except Exception as exc:      # noqa
                     continue
+                evaluated.append(k)
                 if not ok:
                     violated.append('ensures[%d] false natively: %s' % (k, src))
+            out['ensures_evaluated'] = evaluated
+            out['ensures_total'] = len(c.ensures)
     except Exception as exc:      # noqa
         out['native_ensures_error'] = str(exc)
     if problems and not pre_problems:
@@ -261,7 +265,8 @@ def attempt(job, overrides):
         violated.append('operation raised but changed the state: %s' % changed[:2])
     out.update({'observed': observed, 'post_problems': problems[:5], 'changed_on_raise': changed[:3],
                 'violated': violated, 'script': '\n'.join(script)})
-    if violated and ('Inv.' in ob or 'Same' in ob or 'raises' in ob or 'ensures' in ob or 'escaping' in ob):
+    # whichever obligation the verifier lost: a model on which the real code breaks the contract is a witness
+    if violated:
         out['reproduced'] = True
     return out
 
